@@ -116,6 +116,8 @@ func (p *c03) gen(seed uint64, idx int) c03Case {
 		"{% for k, v in nested %}{{ k }}[{% for k2, v2 in v %}{{ k2 }}{{ v2 }}{% endfor %}]{% endfor %}", "{{ nested|json_encode }}", "{{ nested }}",
 		"{% set h = " + hash(r.Range(3, 8)) + " %}{{ h|keys|join }}{{ h|first }}{% for k, v in h %}{{ k }}{% endfor %}{{ h|json_encode }}",
 		"{{ " + hash(r.Range(3, 8)) + "|merge(m)|first }}", "{{ m|default('d')|first }}", "{{ max(m) }}", "{{ m|reverse }}", "{{ m|sort|join(',') }}", "{% if 'alpha' in m %}y{% else %}n{% endif %}",
+		"{{ 'username and user name'|replace({'user': 'U', 'username': 'N', 'name': 'M', 'u': 'x'}) }}", "{{ 'aXbXc'|replace({'X': '-', 'aX': '+', 'Xc': '!'}) }}",
+		"{{ ps }}", "{{ mp }}", "{{ st }}|{{ pst }}", "{{ lp }}", "{{ [p, pp, ps] }}", "{{ {'k': p, 'l': ps} }}", "{{ ps ~ mp }}", "{{ ps|first }}{{ ps|last }}", "{{ dump(ps)|length > 0 ? 'd' : 'n' }}",
 		"{{ p }}", "{{ ps|join(',') }}", "{% for x in ps %}{{ x }}{% endfor %}", "{{ st.P }}|{{ st.S }}", "{{ st.Name }}", "{{ pp }}", "{{ pst.Name }}", "{{ lp|first }}", "{{ mp|first }}{% for k, v in mp %}{{ v }}{% endfor %}",
 		"{% include 'inc3' with {'a1': a2, 'a2': a3, 'a3': a1, 'n1': n2 + 1, 'n2': 10} %}", "{% include 'inc3' with {'a3': a2 ~ a1, 'a2': a1, 'a1': 'x', 'n2': n1, 'n1': n2} only %}",
 		"{% include 'inc' with m %}", "{% include 'inc' with " + hash(r.Range(3, 6)) + " only %}",
@@ -243,7 +245,52 @@ func (p *c03) oneshot(args []string) {
 	os.Stdout.Write(b)
 }
 
+// wild: an entry of the independently written corpus, rendered 10 times on fresh engines with contexts rebuilt in permuted
+// insertion order; all outputs (or errors) must be identical.
+func (p *c03) wild(rec *core.Recorder, seed uint64, idx int) {
+	w := Wild()
+	if len(w) == 0 {
+		rec.Count("wild-corpus-missing", 1)
+		return
+	}
+	e := w[(idx/7+int(seed))%len(w)]
+	rec.Eval("wild", e.ID, true)
+	distinct := map[string]int{}
+	for i := 0; i < 10; i++ {
+		res := renderFresh(e.Srcs(), e.Render, e.Ctx(core.NewRand("C03wild", seed, idx*16+i)), nil)
+		o := res.Out
+		if res.Panicked {
+			o = "PANIC@" + res.Site + ":" + res.PanicVal
+		} else if res.Err != nil {
+			o = "ERR:" + res.Err.Error()
+		}
+		distinct[o]++
+	}
+	rec.Count("wild-renders", 10)
+	if len(distinct) > 1 {
+		var ex []string
+		for o := range distinct {
+			if len(ex) < 3 {
+				ex = append(ex, core.Q(core.Trunc(o, 160)))
+			}
+		}
+		rec.Violate("repeat-equality", "c03-wild:"+e.ID,
+			fmt.Sprintf("10 renders of corpus entry %s (%s) with equal contexts gave %d different outputs, e.g. %s", e.ID, e.Note, len(distinct), strings.Join(ex, " vs ")),
+			map[string]any{"entry": e.ID, "templates": e.Templates, "context": e.Context}, "")
+		return
+	}
+	for o := range distinct {
+		if strings.HasPrefix(o, "PANIC@") {
+			rec.Violate("panic", "panic@"+strings.SplitN(strings.TrimPrefix(o, "PANIC@"), ":", 2)[0], "engine panicked on corpus entry "+e.ID+": "+o, map[string]any{"entry": e.ID, "templates": e.Templates}, "")
+		}
+	}
+}
+
 func (p *c03) Run(rec *core.Recorder, seed uint64, idx int, tier string) {
+	if idx%7 == 6 {
+		p.wild(rec, seed, idx)
+		return
+	}
 	c := p.gen(seed, idx)
 	rec.Eval("case", c.src+fmt.Sprint(c.keys, c.vals, c.keys2), c.nontrivial)
 	if c.bigMap {
